@@ -390,6 +390,8 @@ class CallsMixin:
         if name in ('min', 'max'):
             if len(vals) == 1:
                 v = vals[0]
+                if v.ty.kind == 'Optional' and v.ty.args[0].kind in ('List', 'Np1'):
+                    v = self.coerce(v, v.ty.args[0], st, 'iterated value')     # max(None) raises TypeError
                 if v.ty.kind in ('List', 'Np1') and v.ty.args[0].kind in ('Int', 'Real'):
                     # extremum of a non-empty sequence: a fresh value that bounds every item and is one of them
                     ln, arr = self.seq_parts(v, st)
@@ -406,6 +408,10 @@ class CallsMixin:
             r = vals[0]
             for v in vals[1:]:
                 a, b, t = self.unify(r, v, st)
+                if t.kind == 'Optional' and t.args[0].kind in ('Int', 'Real'):
+                    # comparing None raises TypeError in Python: an implicit-exception site (totality obligation)
+                    t = t.args[0]
+                    a, b = self.coerce(a, t, st, 'compared value'), self.coerce(b, t, st, 'compared value')
                 c = (b.t < a.t) if name == 'min' else (b.t > a.t)
                 r = V(t, z3.If(c, b.t, a.t))
             return r
